@@ -28,18 +28,18 @@ def switch_of(ck, fn):
     return sw[0], cases
 
 
-def after_edges(ck, rule, fn, reach, matcher, val, response, name, until, key, why):
-    """RESPONSE restricted to the trigger edges inside the blocks `reach` (one switch case)"""
+def after_edges(ck, rule, fn, reach, matcher, val, response, name, until, key, why, nonnull=None, tag=None):
+    """RESPONSE restricted to the trigger edges inside the blocks `reach` (one switch case); `nonnull`: a local known to be non-null on these edges"""
     edges = [e for e in ck.trigger_edges(fn, matcher, val) if e[0] in reach]
     ck.need(edges, "C29: trigger %s=%s not found under %s" % (matcher.desc, val, key))
     for (bid, lab, to) in edges:
-        fl = ck.flow(fn, start=to, markers={"R": response})
+        fl = ck.flow(fn, start=to, markers={"R": response}, tracked=[nonnull] if nonnull else (), init_env={nonnull: "NZ"} if nonnull else None)
         bad = [s for s in fl.sites if ((s.ev.get("e") == "exit" and s.ev.get("kind") in ("ret", "fall")) or until(s.ev)) and not s.passed("R")]
         where = fn.where(fn.blocks[bid]["term"].get("l"))
         if not bad:
             ck.ok(rule, where, "%s: after %s=%s every path passes %s" % (key, matcher.desc, val, name))
         for s in bad[:1]:
-            ck.violation(rule, "%s|%s|after:%s=%s|needs:%s" % (rule, key, matcher.desc, "T" if val else "F", name), where,
+            ck.violation(rule, "%s|%s|%s|needs:%s" % (rule.split(".")[0], key, tag or ("after:%s=%s" % (matcher.desc, "T" if val else "F")), name), where,
                          "HttpHdrCc::parse, %s: after %s is %s a path reaches '%s' without %s %s" % (key, matcher.desc, val, s.desc()[:60], name, why), fl.witness(s))
 
 
@@ -88,7 +88,9 @@ def run(ck):
             "httpHeaderParseInt(p, &<K's member>) true and <member> < 0 false; after a failed conversion or a negative value every path calls K's clear*() before the next "
             "item (the directive is absent); a missing parameter also clears, except for max-stale where it means MAX_STALE_ANY")
     nxt = ev_call("strListGetItem")
-    param = E.M(lambda t: E.strip(t).get("k") == "ref" and E.strip(t).get("dk") == "local" and E.strip(t).get("t", "").endswith("*"), "<'=' parameter>")
+    eq = [n for n, ds in ck.local_defs(parse).items() if any(E.m_calls("memchr")(d) and E.const(E.strip(d)["a"][1]) == 61 for d in ds)]
+    ck.need(len(eq) == 1, "C29: the '=' parameter pointer of HttpHdrCc::parse was not identified (%s)" % eq)
+    param = E.m_is_ref(eq[0])
     for k, (wire, kind, member, clear) in sorted(DIRECTIVES.items()):
         if kind != "num":
             continue
@@ -101,13 +103,14 @@ def run(ck):
         for m, v in ((param, True), (conv, True), (neg, False)):
             ck.require_fact("N2.set-needs-valid-value", fl, set_k, m, v, "setMask(%s, true)" % k, why="(%s would be set from a missing, unparsable or negative value)" % wire)
         cleared = ev_call(CC + clear)
-        for m, v, what in ((conv, False, "unparsable value"), (neg, True, "negative value")):
-            after_edges(ck, "N2.invalid-is-absent", parse, reach, m, v, cleared, clear + "()", ev_any(nxt, set_k), k, "(%s=<%s> would not be treated as absent)" % (wire, what))
+        for m, v, what in ((conv, False, "unparsable-value"), (neg, True, "negative-value")):
+            after_edges(ck, "N2.invalid-is-absent", parse, reach, m, v, cleared, clear + "()", ev_any(nxt, set_k), k, "(%s=<%s> would not be treated as absent)" % (wire, what),
+                        nonnull=eq[0], tag=what)       # the conversion is only evaluated with a parameter
         if k == "CC_MAX_STALE":
             any_stale = ev_call(CC + "maxStale", arg={0: E.M(lambda t: "MAX_STALE_ANY" in "".join(E.mentions(t)), "MAX_STALE_ANY")})
-            after_edges(ck, "N2.valueless", parse, reach, param, False, ev_any(any_stale, cleared), "maxStale(MAX_STALE_ANY)", ev_any(nxt, set_k), k, "")
+            after_edges(ck, "N2.valueless", parse, reach, param, False, ev_any(any_stale, cleared), "maxStale(MAX_STALE_ANY)", ev_any(nxt, set_k), k, "", tag="no-value")
         else:
-            after_edges(ck, "N2.valueless", parse, reach, param, False, cleared, clear + "()", ev_any(nxt, set_k), k, "(a %s without value would be kept)" % wire)
+            after_edges(ck, "N2.valueless", parse, reach, param, False, cleared, clear + "()", ev_any(nxt, set_k), k, "(a %s without value would be kept)" % wire, tag="no-value")
 
     ck.rule("N3 HttpHdrCc::parse, flags and lists: under `case K` of a flag directive exactly K's setter is called with true; private/no-cache append the parameter only when "
             "httpHeaderParseQuotedString() succeeded, no-cache is set only without parameter or with a valid one; unknown directives are appended to `other` verbatim; "
@@ -159,6 +162,7 @@ def run(ck):
         fk = under(pack, en[k])
         prints = [s for s in fk.find(ev_call("Packable::appendf")) if not name_print(s.ev) and s.bid not in under(pack, en["CC_ENUM_END"]).reachable_blocks()]
         shown = [(E.strip(E.strip(s.ev["x"])["a"][0]).get("v"), sorted(m for m in E.mentions({"k": "x", "ch": E.strip(s.ev["x"])["a"][1:]}) if m.startswith(CC) and "::" not in m[len(CC):])) for s in prints]
+        at = pack.where(pack.blocks[kcases[en[k]]]["case"].get("l")) if en[k] in kcases else pack.where()
         if kind == "flag":
             good = not prints
         elif kind == "num":
@@ -168,9 +172,9 @@ def run(ck):
         if k == "CC_MAX_STALE":
             good = good and all(s.has(E.m_cmp("==", E.m_is_mem(CC + member), E.m_mentions(CC + "MAX_STALE_ANY")), False) for s in prints)
         if good:
-            ck.ok("N4.value", pack.where(pack.blocks[kcases[en[k]]]["case"].get("l")), "case %s prints %s" % (k, shown or "no value"))
+            ck.ok("N4.value", at, "case %s prints %s" % (k, shown or "no value"))
         else:
-            ck.violation("N4.value", "N4.value|%s" % k, pack.where(pack.blocks[kcases[en[k]]]["case"].get("l")), "packInto case %s (%s) prints %s; expected %s" % (
+            ck.violation("N4.value", "N4.value|%s" % k, at, "packInto case %s (%s) prints %s; expected %s" % (
                 k, wire, shown, {"flag": "nothing", "num": "\"=%%d\" with %s" % member, "list": "=\"...\" with %s when non-empty" % member}[kind]))
 
     # ------------------------------------------------------------------ lossy conversion
